@@ -73,6 +73,9 @@ Ctxs(t) ==
   \cup (IF t \in {"L", "B", "N", "GEO"} THEN {} ELSE { <<"cmp-order", Cmp("lt", H, FieldOf(t))>>, <<"list-element", Cmp("in", FieldOf(t), Lst(<<H, H>>))>>,
                                                   <<"list-singleton", Cmp("in", FieldOf(t), Lst(<<H>>))>>,
                                                   <<"in-left", Cmp("in", H, Lst(<<FieldOf(t), FieldOf(t)>>))>> })
+  \* ill-typed but parser-producible: a non-string construct as the pattern of a string function
+  \cup (IF t \in {"I", "F", "B", "T", "D", "TM", "DU", "G"} THEN { <<"illtyped-contains2", C2("contains", s, H)>>, <<"illtyped-endswith2", C2("endswith", s, H)>>,
+                                                                  <<"illtyped-startswith1", C2("startswith", H, SLit)>> } ELSE {})
   \cup { <<"custom-arg", Call(Id(<<"f">>, "g"), <<H>>)>>, <<"named-arg", Call(Id(<<"f">>, "g"), <<Named(Id0("k"), H)>>)>> }
   \cup (CASE t = "B" -> { <<"top", H>>, <<"not-operand", Un("not", H)>>, <<"and-operand", Bool("and", H, Cmp("eq", n, IntL(1)))>>,
                          <<"or-operand", Bool("or", Cmp("eq", n, IntL(1)), H)>>, <<"lambda-body", Coll(Id0("cs"), "any", Lam(Id0("y"), H))>>,
